@@ -77,9 +77,12 @@ structure Grammar where
   start : String
   /-- the dummy rule `Gamma -> start` with empty features -/
   gammaFeats : Nat
+  /-- head of the dummy rule: "Gamma" followed by as many primes as needed to differ from every
+  variable of the grammar (after the repair) -/
+  gammaName : String
 
 def prodOf (G : Grammar) (k : Nat) : FProd :=
-  G.prods.getD k { head := "Gamma", body := [.var G.start], feats := G.gammaFeats }
+  G.prods.getD k { head := G.gammaName, body := [.var G.start], feats := G.gammaFeats }
 
 def keyOf (G : Grammar) (s : EState) : Key :=
   let p := prodOf G s.prod
@@ -218,6 +221,17 @@ def fsFor (st : Store) (vars : List (String × Nat)) (f : Feat) : Store × List 
       let (st2, leaf) := alloc st1 { value := some v, content := [], pointer := none }
       (st2.set fs { get st2 fs with content := [("n", leaf)] }, vars, fs)
 
+/-- the variables of the grammar (`self._variables`): heads, body variables, start symbol -/
+def grammarVars (prods : List FProd) (start : String) : List String :=
+  (start :: prods.flatMap fun p => p.head :: p.body.filterMap fun s => match s with
+    | .var v => some v
+    | .ter _ => none).eraseDups
+
+/-- `gamma = Variable("Gamma"); while gamma in self._variables: gamma = Variable(gamma.value + "'")` -/
+def freshGamma (vars : List String) : String :=
+  let cands := (List.range (vars.length + 1)).map fun k => "Gamma" ++ String.ofList (List.replicate k '\'')
+  (cands.find? fun c => c ∉ vars).getD "Gamma"
+
 /-- the harness's `build_fcfg`: per production a fresh variable table, head structure, one
 structure per body item (terminals: empty), and the record `production.features` -/
 def buildGrammar (spec : List ((String × Feat) × List (Sym × Feat))) (start : String) : Store × Grammar :=
@@ -239,7 +253,7 @@ def buildGrammar (spec : List ((String × Feat) × List (Sym × Feat))) (start :
   let (st1, h) := alloc st { value := none, content := [], pointer := none }
   let (st2, b0) := alloc st1 { value := none, content := [], pointer := none }
   let (st3, gf) := alloc st2 { value := none, content := [("head", h), ("0", b0)], pointer := none }
-  (st3, { prods := prods, start := start, gammaFeats := gf })
+  (st3, { prods := prods, start := start, gammaFeats := gf, gammaName := freshGamma (grammarVars prods start) })
 
 def containsSpec (spec : List ((String × Feat) × List (Sym × Feat))) (start : String) (word : List String)
     (fuel : Nat) : Option Bool :=
